@@ -23,10 +23,10 @@ import numpy as np
 from lib import core
 from lib.symtrace import Gen
 from lib.corr import sym_num
-from lib.gens import log_uniform, rand_rot, rand_rot2, rand_unit, rand_trans
+from lib.gens import log_uniform, rand_rot, rand_rot2, rand_unit, rand_trans, rand_se3, rand_se2
 
 import spatialmath.base as base  # noqa: E402
-from spatialmath import SO2, SE2, SO3, SE3, UnitQuaternion, Twist2, Twist3  # noqa: E402
+from spatialmath import SO2, SE2, SO3, SE3, Quaternion, UnitQuaternion, Twist2, Twist3  # noqa: E402
 
 MOD = 'Traces_C07'
 EPS = float(np.finfo(np.float64).eps)
@@ -977,6 +977,160 @@ def table(ctx):
     ctx.sample({'kind': 'T-tab', 'cell': [cs[40][0], cs[40][1], str(cs[40][2])], 'model': vals[40]})
 
 
+# =====================================================================================================
+# T-tab + oracle, part 3: values that arrive as objects -- list mutators and the constructor given an object
+# =====================================================================================================
+OCLS = {'oSO2': SO2, 'oSE2': SE2, 'oSO3': SO3, 'oSE3': SE3, 'oQ': Quaternion, 'oUQ': UnitQuaternion, 'oTw2': Twist2, 'oTw3': Twist3}
+RECV = ['oSO2', 'oSE2', 'oSO3', 'oSE3', 'oUQ', 'oTw2', 'oTw3']       # Quaternion has no constraint: operand only
+O2C = {'oSO2': 'cSO2', 'oSE2': 'cSE2', 'oSO3': 'cSO3', 'oSE3': 'cSE3', 'oUQ': 'cUQ', 'oTw2': 'cTw2', 'oTw3': 'cTw3'}
+
+
+def mk_obj(rng, o, n):
+    """an object of class o holding n valid values of its class (independent construction from arrays, check on)"""
+    K = OCLS[o]
+    if n == 0:
+        return K.Empty()
+    if o == 'oSO2':
+        vals = [rand_rot2(rng) for _ in range(n)]
+    elif o == 'oSE2':
+        vals = [rand_se2(rng, 1e-3, 1e3) for _ in range(n)]
+    elif o == 'oSO3':
+        vals = [rand_rot(rng) for _ in range(n)]
+    elif o == 'oSE3':
+        vals = [rand_se3(rng, 1e-3, 1e3) for _ in range(n)]
+    elif o == 'oQ':
+        return Quaternion([Quaternion(rng.normal(size=4) * 3 + 2) for _ in range(n)])
+    elif o == 'oUQ':
+        vals = [rand_unit(rng, 4) for _ in range(n)]
+    elif o == 'oTw2':
+        vals = [rng.normal(size=3) for _ in range(n)]
+    else:
+        vals = [rng.normal(size=6) for _ in range(n)]
+    x = K(vals)
+    assert len(x) == n and type(x) is K
+    return x
+
+
+def mut_cells():
+    """(receiver class, receiver length, mutator term for the model, python action, operand class, operand length)"""
+    out = []
+    for r in RECV:
+        for L in (1, 3):
+            for o in list(OCLS) + ['oArr']:
+                for n in ((0, 1, 2) if o != 'oArr' else (1,)):
+                    for i in (0, L - 1, -1, L, -L - 1):
+                        pos = i if i >= 0 else (L + i if L + i >= 0 else L)
+                        out.append((r, L, f"(SetInt {pos})", ('setitem', i), o, n))
+                    for lo, hi in ((0, 1), (0, min(2, L)), (1, 1)):
+                        out.append((r, L, f"(SetSlice {lo} {hi})", ('setslice', lo, hi), o, n))
+                    out.append((r, L, "Append", ('append',), o, n))
+                    for i in (0, 1, L + 5, -1):
+                        pos = min(i, L) if i >= 0 else max(0, L + i)
+                        out.append((r, L, f"(Insert {pos})", ('insert', i), o, n))
+                    out.append((r, L, "Extend", ('extend',), o, n))
+    return out
+
+
+def elements_bits(r, data):
+    return [member(O2C[r], el) == 'member' for el in data]
+
+
+def same_data(a, b):
+    return len(a) == len(b) and all((x is y) or (isinstance(x, np.ndarray) and isinstance(y, np.ndarray) and x.shape == y.shape and np.array_equal(x, y))
+                                    for x, y in zip(a, b))
+
+
+def mut_key(r, act, o, n):
+    R, O = OCLS[r].__name__, (OCLS[o].__name__ if o in OCLS else 'ndarray')
+    if o == r and n == 0 and act[0] in ('setitem', 'append', 'insert'):
+        return 'mut:empty-operand-stores-empty-list'
+    if o == r and n == 1 and act[0] == 'setslice':
+        return 'mut:setitem:slice-index-spreads-rows'
+    return f"mut:{act[0]}:{R}-from-{O}:holds-nonmember"
+
+
+def obj_key(r, o, n):
+    R, O = OCLS[r].__name__, OCLS[o].__name__
+    if (r, o) in (('oSO3', 'oSE3'), ('oSO2', 'oSE2')):
+        return 'ctor:object-arg:subclass-instance-copied'
+    if (r, o) in (('oTw3', 'oSE3'), ('oTw2', 'oSE2')) and n != 1:
+        return 'ctor:object-arg:convert-of-multi-valued-holds-list'
+    return f"ctor:object-arg:{R}-from-{O}:holds-nonmember"
+
+
+def parse_bits(val):
+    import re
+    m = re.fullmatch(r'\((\d+), \[([a-z; ]*)\]\)', val.strip())
+    if not m:
+        raise RuntimeError('cannot parse model summary: ' + val)
+    return (int(m.group(1)), [x.strip() == 'true' for x in m.group(2).split(';') if x.strip()])
+
+
+def table_objects(ctx):
+    rng = ctx.rng
+    cs = mut_cells()
+    oc = [(r, o, n) for r in RECV for o in OCLS for n in (0, 1, 2)]
+    ctx.stats['table:mutator-cells'] = len(cs)
+    ctx.stats['table:object-ctor-cells'] = len(oc)
+    terms = [f"mut_summary {r} {L} {mt} (Opd {o} {n})" for r, L, mt, act, o, n in cs] + [f"obj_summary {r} (Opd {o} {n})" for r, o, n in oc]
+    vals = [parse_bits(v) for v in ctx.coq_eval(COQ_HDR, terms, name='mut', chunk=800)]
+    reps = ctx.n(1, 12)
+    for (r, L, mt, act, o, n), model in zip(cs, vals):
+        for k in range(reps):
+            recv = mk_obj(rng, r, L)
+            x = mk_obj(rng, o, n) if o in OCLS else (np.ones((3, 3)) if k % 2 == 0 else [np.eye(3)])
+            before = list(recv.data)
+            cell = {'receiver': OCLS[r].__name__, 'receiver_len': L, 'mutator': list(act), 'operand': OCLS[o].__name__ if o in OCLS else 'ndarray/list',
+                    'operand_len': n, 'operand_data_hex': [hexes(e) for e in (x.data if o in OCLS else [])]}
+            try:
+                if act[0] == 'setitem':
+                    recv[act[1]] = x
+                elif act[0] == 'setslice':
+                    recv[act[1]:act[2]] = x
+                elif act[0] == 'append':
+                    recv.append(x)
+                elif act[0] == 'insert':
+                    recv.insert(act[1], x)
+                else:
+                    recv.extend(x)
+                summ = (0, elements_bits(r, recv.data))
+                raised = None
+            except Exception as ex:  # noqa
+                raised = type(ex).__name__
+                summ = (EXC_CODE.get(raised, 99), [])
+            ctx.corr['cases'] += 1
+            ctx.case(('mut', r, L, mt, o, n, k), nontrivial=(k == 0))
+            cell['observed'] = raised or [('member' if b else 'NON-MEMBER: ' + repr(np.shape(e) if isinstance(e, np.ndarray) else e)) for b, e in zip(summ[1], recv.data)]
+            if summ != model:
+                ctx.corr['disagreements'] += 1
+                ctx.fail(f"corr:mut:{act[0]}:{OCLS[r].__name__}", f"mutator model and implementation disagree on {cell}: model {model} implementation {summ}", cell)
+            ctx.count('oracle:mut')
+            if raised is None and not all(summ[1]):
+                ctx.fail(mut_key(r, act, o, n), f"after {act} the {OCLS[r].__name__} object holds a value outside its group: {cell['observed']}", cell)
+            if raised is not None and not same_data(before, recv.data):
+                ctx.fail(f"mut:{act[0]}:receiver-changed-although-exception", f"{act} raised {raised} but the receiver was modified: {cell}", cell)
+    for (r, o, n), model in zip(oc, vals[len(cs):]):
+        for k in range(reps):
+            x = mk_obj(rng, o, n)
+            cell = {'class': OCLS[r].__name__, 'argument': OCLS[o].__name__, 'argument_len': n, 'argument_data_hex': [hexes(e) for e in x.data]}
+            try:
+                obj = OCLS[r](x)
+                summ = (0, elements_bits(r, obj.data))
+                cell['observed'] = [('member' if b else 'NON-MEMBER: ' + repr(np.shape(e) if isinstance(e, np.ndarray) else type(e).__name__)) for b, e in zip(summ[1], obj.data)]
+            except Exception as ex:  # noqa
+                summ = (EXC_CODE.get(type(ex).__name__, 99), [])
+                cell['observed'] = type(ex).__name__
+            ctx.corr['cases'] += 1
+            ctx.case(('obj', r, o, n, k), nontrivial=(k == 0))
+            if summ != model:
+                ctx.corr['disagreements'] += 1
+                ctx.fail(f"corr:ctor-obj:{OCLS[r].__name__}", f"object-argument constructor model and implementation disagree on {cell}: model {model} implementation {summ}", cell)
+            ctx.count('oracle:ctor-obj')
+            if summ[0] == 0 and not all(summ[1]):
+                ctx.fail(obj_key(r, o, n), f"{OCLS[r].__name__}({OCLS[o].__name__} object of length {n}) holds a value outside its group: {cell['observed']}", cell)
+    ctx.corr['functions'] += 2
+
+
 def run(ctx):
     ctx.rule = ("obligations: theorems of Props/C07_pred.v (over R, at the tolerances regenerated from the AST, incl. the tag bridge) and "
                 "C07_ctor.v (lists, axiom-free); evaluations: T-num cases (extracted predicate model vs implementation), table "
@@ -996,6 +1150,7 @@ def run(ctx):
     if ok:
         ctx.prove('theories/Props/C07_pred.v')
     ctx.prove('theories/Props/C07_ctor.v')
+    ctx.prove('theories/Props/C07_mut.v')
     if g:
         with ctx.timed('correspond'):
             base_text = g.extract_text          # several python entry points share one model function: extract each once
@@ -1003,6 +1158,7 @@ def run(ctx):
             sym_num(ctx, g, MOD, ctx.n(150, 12000))
     with ctx.timed('table'):
         table(ctx)
+        table_objects(ctx)
     with ctx.timed('oracle'):
         oracle_pred(ctx)
 
